@@ -7,6 +7,9 @@
     chunkr <budget> <res0> <rplan> <letters> <tail>   get_sdr_chunk_helper, reserve_fn outcomes planned (f<code> = refused)
     clearr <budget> <res|-> <rplan> <letters> <tail>  clear_repository_helper, the same
     send <asShipped:1|0> <budget> <letters> <tail>    Ipmi.send_message
+    chunkx <budget> <res0> <rplan> <letters> <tail>   the same three over the alphabet with N = NO ANSWER (the callable
+    clearx <budget> <res|-> <rplan> <letters> <tail>  raises IpmiTimeoutError; Model/RetryNoAnswer.lean); a refused
+    sendx <asShipped:1|0> <budget> <letters> <tail>   reserve shows as f<code>, an unanswered one as f-1
     consts                                            constants read from the source
     data <store r|d> <stale 1|0> <id> <res|-> <res0> <recs> <letters> <tail>
                                                       get_repository_sdr / get_device_sdr (get_sdr_data_helper over the
@@ -39,6 +42,7 @@
 -/
 import PyIpmi.Base.Proto
 import PyIpmi.Model.Retry
+import PyIpmi.Model.RetryNoAnswer
 import PyIpmi.Model.SdrXfer
 import PyIpmi.Model.SelScript
 import PyIpmi.Gen.Loops11
@@ -81,6 +85,34 @@ def showTrace (t : List Ev) : String :=
 
 def answer {α : Type} (p : Env × Outcome α) : String :=
   s!"{p.2.tag} {showTrace p.1.trace}"
+
+/-! the alphabet with N = no answer (IpmiTimeoutError raised by the callable) -/
+open PyIpmi.Model.RetryNA in
+def parseLetterX (s : String) : Option LetterX :=
+  if s == "N" then some .noAnswer else (parseLetter s).map .ans
+
+open PyIpmi.Model.RetryNA in
+def parseLettersX (s : String) : Option (List LetterX) :=
+  if s == "-" then some [] else (s.splitOn ",").mapM parseLetterX
+
+open PyIpmi.Model.RetryNA in
+def showLetterX : LetterX → String
+  | .ans l => showLetter l
+  | .noAnswer => "N"
+
+open PyIpmi.Model.RetryNA in
+def showEvX : EvX → String
+  | .reserve g => s!"r{g}"
+  | .clear c r l => s!"c{c}:{r}:{showLetterX l}"
+  | .chunk r l => s!"k{r}:{showLetterX l}"
+  | .xfer l => s!"x{showLetterX l}"
+  | .reserveFailed (.ans l) => s!"f{l.code}"
+  | .reserveFailed .noAnswer => "f-1"
+
+open PyIpmi.Model.RetryNA in
+def answerNA {α : Type} (p : EnvX × Outcome α) : String :=
+  let t := if p.1.trace.isEmpty then "-" else ",".intercalate (p.1.trace.map showEvX)
+  s!"{p.2.tag} {t}"
 
 /-! record-chunk fetching above the chunk helper, on the scripted device -/
 open PyIpmi.Model.SdrXfer PyIpmi.Spec.Sdr in
@@ -229,6 +261,18 @@ def handleC13 (line : String) : String :=
       let p := runClearR K13 b rv ⟨ls, t⟩ rp
       s!"{p.2.tag} {showTrace p.1.env.trace}"
     | _, _, _, _, _ => "bad-op"
+  | ["chunkx", b, r, rp, ls, t] =>
+    match b.toNat?, r.toNat?, parseLettersX rp, parseLettersX ls, parseLetterX t with
+    | some b, some r, some rp, some ls, some t => answerNA (PyIpmi.Model.RetryNA.runChunkX K13 b r ⟨ls, t⟩ rp)
+    | _, _, _, _, _ => "bad-op"
+  | ["clearx", b, r, rp, ls, t] =>
+    match b.toNat?, (if r == "-" then some none else r.toNat?.map some), parseLettersX rp, parseLettersX ls, parseLetterX t with
+    | some b, some rv, some rp, some ls, some t => answerNA (PyIpmi.Model.RetryNA.runClearX K13 b rv ⟨ls, t⟩ rp)
+    | _, _, _, _, _ => "bad-op"
+  | ["sendx", v, b, ls, t] =>
+    match v.toNat?, b.toNat?, parseLettersX ls, parseLetterX t with
+    | some v, some b, some ls, some t => answerNA (PyIpmi.Model.RetryNA.runSendX K13 ⟨v != 0⟩ b ⟨ls, t⟩)
+    | _, _, _, _ => "bad-op"
   | ["clearloop", c, b, r, ls, t] =>
     match c.toNat?, b.toNat?, r.toNat?, parseLetters ls, parseLetter t with
     | some c, some b, some r, some ls, some t => answer (runClearLoop K13 c b r ⟨ls, t⟩)
